@@ -36,6 +36,8 @@ const OTHER_PKG: u64 = 3; // some other package (resource package)
 const TP_GC: u64 = 2; // global caller = transaction processor blueprint
 const OTHER_GC: u64 = 4; // global caller = the badge account
 const MINTER: u64 = 5;
+const WITHDRAWER: u64 = 7;
+const ACCOUNT_PKG: u64 = 6; // account package (direct caller of the vault in the deeper chain)
 
 #[derive(Clone, Debug, PartialEq)]
 enum Ron {
@@ -111,7 +113,7 @@ impl World {
         match res {
             SIG_SECP => NonFungibleGlobalId::from_public_key(&self.secp[id as usize]),
             SIG_ED => NonFungibleGlobalId::from_public_key(&self.ed),
-            PKG_RES => NonFungibleGlobalId::package_of_direct_caller_badge(if id == TP_PKG { TRANSACTION_PROCESSOR_PACKAGE } else { RESOURCE_PACKAGE }),
+            PKG_RES => NonFungibleGlobalId::package_of_direct_caller_badge(if id == TP_PKG { TRANSACTION_PROCESSOR_PACKAGE } else if id == ACCOUNT_PKG { ACCOUNT_PACKAGE } else { RESOURCE_PACKAGE }),
             GC_RES => {
                 if id == TP_GC {
                     NonFungibleGlobalId::global_caller_badge(GlobalCaller::PackageBlueprint(BlueprintId::new(
@@ -165,7 +167,7 @@ fn gen_ron(rng: &mut Rng) -> Ron {
         10 => Ron::NF(4, rng.range(1, 3)),
         11..=13 => Ron::Res(rng.range(1, 4)),
         14 => Ron::Res(if rng.bool() { SIG_SECP } else { SIG_ED }),
-        15 => Ron::NF(PKG_RES, if rng.chance(2, 3) { TP_PKG } else { OTHER_PKG }),
+        15 => Ron::NF(PKG_RES, *rng.pick(&[TP_PKG, TP_PKG, ACCOUNT_PKG, ACCOUNT_PKG, OTHER_PKG])),
         16 => Ron::NF(GC_RES, if rng.chance(2, 3) { TP_GC } else { OTHER_GC }),
         17 => Ron::Res(if rng.bool() { PKG_RES } else { GC_RES }),
         _ => Ron::NF(SIG_SECP, rng.below(3)),
@@ -330,22 +332,33 @@ fn main() {
         let rule = gen_rule(&mut rng);
         let fallback = rng.chance(1, 4);
         let other = gen_rule(&mut rng);
-        // role table of the new resource: minter = rule (owner = other), or minter falls to owner = rule
-        let (minter_def, owner_rule) = if fallback { (None, rule.clone()) } else { (Some(w.rule(&rule)), other.clone()) };
-        let m = ManifestBuilder::new()
-            .lock_fee_from_faucet()
-            .create_fungible_resource(
-                OwnerRole::Fixed(w.rule(&owner_rule)),
-                true,
-                18,
-                FungibleResourceRoles {
-                    mint_roles: Some(MintRoles { minter: minter_def, minter_updater: Some(AccessRule::DenyAll) }),
-                    ..Default::default()
-                },
-                metadata!(),
-                None,
-            )
-            .build();
+        // shape of the protected call:
+        //   direct:      manifest -> resource.mint            (role minter)
+        //   via account: manifest -> account.withdraw -> vault.take  (role withdrawer of the resource; the vault's
+        //                frame has the account's zone as parent and the account's global caller copied)
+        let via_account = rng.chance(1, 3);
+        // role table of the new resource: role = rule (owner = other), or the role falls to owner = rule
+        let (role_def, owner_rule) = if fallback { (None, rule.clone()) } else { (Some(w.rule(&rule)), other.clone()) };
+        let roles = if via_account {
+            FungibleResourceRoles {
+                withdraw_roles: Some(WithdrawRoles { withdrawer: role_def, withdrawer_updater: Some(AccessRule::DenyAll) }),
+                ..Default::default()
+            }
+        } else {
+            FungibleResourceRoles {
+                mint_roles: Some(MintRoles { minter: role_def, minter_updater: Some(AccessRule::DenyAll) }),
+                ..Default::default()
+            }
+        };
+        let mb = ManifestBuilder::new().lock_fee_from_faucet().create_fungible_resource(
+            OwnerRole::Fixed(w.rule(&owner_rule)),
+            true,
+            18,
+            roles,
+            metadata!(),
+            if via_account { Some(dec(10 * UNIT)) } else { None },
+        );
+        let m = if via_account { mb.try_deposit_entire_worktop_or_abort(w.account, None).build() } else { mb.build() };
         let receipt = w.ledger.execute_manifest(m, vec![]);
         let created = match &receipt.result {
             TransactionResult::Commit(c) if matches!(c.outcome, TransactionOutcome::Success(_)) => c.new_resource_addresses()[0],
@@ -427,11 +440,19 @@ fn main() {
         if drop_sigs {
             instrs.push(InstructionV1::DropAuthZoneSignatureProofs(DropAuthZoneSignatureProofs));
         }
-        instrs.push(InstructionV1::CallMethod(CallMethod {
-            address: ManifestGlobalAddress::Static(created.into()),
-            method_name: "mint".to_string(),
-            args: to_manifest_value_and_unwrap!(&(dec(UNIT),)),
-        }));
+        instrs.push(if via_account {
+            InstructionV1::CallMethod(CallMethod {
+                address: ManifestGlobalAddress::Static(w.account.into()),
+                method_name: "withdraw".to_string(),
+                args: to_manifest_value_and_unwrap!(&(created, dec(UNIT))),
+            })
+        } else {
+            InstructionV1::CallMethod(CallMethod {
+                address: ManifestGlobalAddress::Static(created.into()),
+                method_name: "mint".to_string(),
+                args: to_manifest_value_and_unwrap!(&(dec(UNIT),)),
+            })
+        });
         let none: Option<ResourceOrNonFungible> = None;
         instrs.push(InstructionV1::CallMethod(CallMethod {
             address: ManifestGlobalAddress::Static(w.account.into()),
@@ -470,7 +491,7 @@ fn main() {
                 TransactionResult::Commit(c) => match &c.outcome {
                     TransactionOutcome::Success(_) => Outcome::Authorized,
                     TransactionOutcome::Failure(RuntimeError::SystemModuleError(SystemModuleError::AuthError(AuthError::Unauthorized(u))))
-                        if u.fn_identifier.ident == "mint" =>
+                        if u.fn_identifier.ident == (if via_account { "take" } else { "mint" }) =>
                     {
                         Outcome::Unauthorized
                     }
@@ -499,10 +520,8 @@ fn main() {
             }
         }
         let visible_proofs: Vec<(u64, i128, Vec<u64>)> = placements.iter().filter(|p| !p.popped).map(|p| (p.res, p.amt, p.ids.clone())).collect();
-        let zone_coq = format!(
-            "{{| az_pkg := Some {}; az_gc := Some ({}, false, [{{| z_proofs := {}; z_vres := {}; z_vnf := {} |}}]); az_parent := [] |}}",
-            TP_PKG,
-            TP_GC,
+        let tp_zone = format!(
+            "{{| z_proofs := {}; z_vres := {}; z_vnf := {} |}}",
             coq_list(visible_proofs.iter().map(|p| format!(
                 "{{| p_res := {}; p_amt := {}; p_ids := {} |}}",
                 p.0,
@@ -512,26 +531,41 @@ fn main() {
             coq_list(vres.iter().map(|r| r.to_string())),
             coq_list(vnf.iter().map(|g| format!("({}, {})", g.0, g.1))),
         );
-        let roles_coq = if fallback { "[]".to_string() } else { format!("[({}, {})]", MINTER, rule_coq(&rule)) };
+        // direct: callee zone = (direct caller package TP, global caller TP with chain [transaction zone], no parent)
+        // via account: the vault's zone = (direct caller package ACCOUNT, global caller copied from the account's
+        //              zone = TP with chain [transaction zone], parent chain = [account zone (empty)])
+        let zone_coq = if via_account {
+            format!(
+                "{{| az_pkg := Some {}; az_gc := Some ({}, false, [{}]); az_parent := [{{| z_proofs := []; z_vres := []; z_vnf := [] |}}] |}}",
+                ACCOUNT_PKG, TP_GC, tp_zone
+            )
+        } else {
+            format!("{{| az_pkg := Some {}; az_gc := Some ({}, false, [{}]); az_parent := [] |}}", TP_PKG, TP_GC, tp_zone)
+        };
+        let role_key = if via_account { WITHDRAWER } else { MINTER };
+        let roles_coq = if fallback { "[]".to_string() } else { format!("[({}, {})]", role_key, rule_coq(&rule)) };
         let observed = match &outcome {
             Outcome::Authorized => "OAuthorized",
             Outcome::Unauthorized => "OUnauthorized",
             Outcome::Other(_) => "OOther",
         };
-        cw.push(format!("({}, (77, {}, {}, [{}]), {})", zone_coq, roles_coq, rule_coq(&owner_rule), MINTER, observed));
+        cw.push(format!("({}, (77, {}, {}, [{}]), {})", zone_coq, roles_coq, rule_coq(&owner_rule), role_key, observed));
 
         // oracle: declarative meaning over everything visible
         let mut vis = Visible { vnf: vnf.iter().cloned().collect(), vres: vres.iter().cloned().collect(), proofs: visible_proofs.clone() };
-        vis.vnf.insert((PKG_RES, TP_PKG));
+        vis.vnf.insert((PKG_RES, if via_account { ACCOUNT_PKG } else { TP_PKG }));
         vis.vnf.insert((GC_RES, TP_GC));
         let expect = vis.rule(&rule);
-        let canon = format!("{}|{}|{:?}|{:?}|{}|{}|{}", rule_coq(&rule), fallback, signers, placements, ed_signer, drop_sigs, simulate);
+        let canon = format!("{}|{}|{:?}|{:?}|{}|{}|{}|{}", rule_coq(&rule), fallback, signers, placements, ed_signer, drop_sigs, simulate, via_account);
         report.case(&canon, matches!(rule, Rule::Protected(_)));
         report.count(match &outcome {
             Outcome::Authorized => "authorized",
             Outcome::Unauthorized => "unauthorized",
             Outcome::Other(_) => "other_outcome",
         });
+        if via_account {
+            report.count("via_account_vault_chain");
+        }
         if fallback {
             report.count("owner_fallback");
         }
@@ -544,7 +578,7 @@ fn main() {
         report.count_n("proofs_in_auth_zone", visible_proofs.len() as u64);
         report.count_n("proofs_popped", placements.iter().filter(|p| p.popped).count() as u64);
         let input = json!({"rule": rule_coq(&rule), "fallback": fallback, "signers": signers, "ed": ed_signer, "placements": format!("{:?}", placements),
-                           "drop_sigs": drop_sigs, "simulate": simulate, "engine": format!("{:?}", outcome)});
+                           "drop_sigs": drop_sigs, "simulate": simulate, "via_account": via_account, "engine": format!("{:?}", outcome)});
         match &outcome {
             Outcome::Authorized if !expect => report.oracle_failure(i, "", "mint authorized although the rule is not satisfied by the visible badges", input.clone()),
             Outcome::Unauthorized if expect => report.oracle_failure(i, "", "mint refused although the rule is satisfied by the visible badges", input.clone()),
@@ -561,6 +595,7 @@ fn main() {
     report.floor("authorized", (args.cases as u64) / 8);
     report.floor("unauthorized", (args.cases as u64) / 8);
     report.floor("owner_fallback", (args.cases as u64) / 10);
+    report.floor("via_account_vault_chain", (args.cases as u64) / 6);
     cw.write(&args.out, args.shards).unwrap();
     report.write(&args.out).unwrap();
 }
